@@ -2,6 +2,26 @@
 import json, os
 V = os.path.dirname(os.path.dirname(os.path.abspath(__file__)))
 CLAIMED = {
+ "C02": dict(
+   text="Proof (field level, every configuration / state / age): only the bin containing the turn-off mass loses stars (mto < upper and lower <= mto, via the proved "
+        "inverse/monotone lifetime functions), the flux re-appears in the class and bin dictated by the IFMR scaled by the class retention fraction with dMr = m_rem dNr, "
+        "zero-mass remnants are skipped, per-bin star counts never grow, numbers are conserved when the class is fully retained, the total mass rate is <= 0 when "
+        "m_rem <= mto, and all other entries of the derivative (incl. slopes) are zero. RK lemmas for EVERY explicit tableau and step sequence lift the linear identities "
+        "to whatever steps dopri5 takes (object count exactly conserved / evolves by the method's quadrature of the escape rate). Float instance compared with "
+        "_derivs_sev on arbitrary states of 5-8 layouts/metallicities/IFMR methods; retention fractions expected from the constructor arguments.",
+   design="8/C02 + 4", technique="Coq proofs over a polymorphic field model + Runge-Kutta linear-invariant lemmas + float correspondence on arbitrary states + oracle",
+   note="Trusted: Coq kernel; Reals axioms (evidence); the IFMR prediction is an input of the model field (C09); dopri5's controller is not modelled (RK lemmas hold for any steps); "
+        "stage states are assumed to stay in the field's domain; harness; FloatFun. Knife-edge cases (turn-off mass within 1e-9 of an edge) are counted, not compared."),
+ "C03": dict(
+   text="Proof (field level): before core collapse the losses over all star and remnant bins sum to the rate (N) / the mass losses at the bins' mean masses sum to the "
+        "rate (M), every bin loses the same fraction, slopes fixed, remnant means preserved (with the necessary non-zero-total hypothesis - its necessity is itself a "
+        "machine-checked refutation found while proving); after core collapse the losses sum to the rate, bins whose mean mass is not below md are untouched, remnant "
+        "weights are N(1-sqrt(mr/md)) and remnant means are preserved. RK lemmas give N(t) = N0 + quadrature of the rate for any steps. Float instance compared with "
+        "_derivs_esc on arbitrary states (both branches, both norms, callable and constant rates, md 0.3-5); quad-based oracle for the 1-sqrt(m/md) weighting.",
+   design="8/C03 + 4", technique="Coq proofs over a polymorphic field model + RK lemmas + float correspondence + quad oracle",
+   note="Trusted: Coq kernel; Reals axioms (evidence); numpy pairwise sums compared at 1e-8; harness; FloatFun. Not proved: the post-collapse M-normalisation sum "
+        "and the integral form of Is/Js (checked by the oracle against quad on every sampled state); 'mass change implied by evolving slopes' is measured only."),
+
  "C11": dict(
    text="Proof: for any number of segments (induction over the segment list) the normalisation constants exist and are positive, the IMF is continuous at every "
         "interior break, the segment integrals of N(m)/N0 sum to exactly one and each is the Riemann integral of that segment's power law (C12), evaluation follows the "
